@@ -316,9 +316,19 @@ def specialise(ctx, f, keep=1):
             e2 = _Replace(table).visit(copy.deepcopy(e))
             if f.cls is not None and g.cls is not None and g.cls.name not in ctx.prog.mro(f.cls.name):
                 # attributes of the CALLER's object (the solver's precision, ...) are values fixed outside the callee: opaque names
+                known = {}
+                if g.cls.name == "Solver":
+                    try:
+                        from .rules import C04 as _C04
+                        known["floor"] = _C04.threshold_chain(ctx)["d"]      # the solver's rounding digits: a constant of the construction site
+                    except Exception:
+                        pass
+
                 class _CallerSelf(ast.NodeTransformer):
                     def visit_Attribute(self, node):
                         if isinstance(node.value, ast.Name) and node.value.id == "self" and isinstance(node.ctx, ast.Load):
+                            if node.attr in known:
+                                return ast.copy_location(ast.Constant(value=known[node.attr]), node)
                             return ast.copy_location(ast.Name(id="__caller_%s__" % node.attr, ctx=ast.Load()), node)
                         return self.generic_visit(node)
                 e2 = _CallerSelf().visit(e2)
